@@ -4,6 +4,7 @@
 package main
 
 import (
+	"encoding/binary"
 	"fmt"
 	"sort"
 	"strings"
@@ -116,6 +117,27 @@ func orderName(o cluster.VersionOrder) string {
 	return [...]string{"Equal", "Before", "After", "Concurrent"}[o]
 }
 
+// wireRoute is one way of obtaining a Writer and the matching Reader options.
+type wireRoute struct {
+	name   string
+	writer func() *messages.Writer
+	ropts  []messages.ReaderOption
+}
+
+var wireRoutes = []wireRoute{
+	{"big-endian", func() *messages.Writer { return messages.NewWriter() }, nil},
+	{"big-endian/pooled", func() *messages.Writer { return messages.NewWriterFromPool() }, nil},
+	{"big-endian/explicit", func() *messages.Writer {
+		return messages.NewWriter(messages.WriterOption{ByteOrder: binary.BigEndian, Buffer: make([]byte, 3, 8), Reset: true})
+	}, []messages.ReaderOption{{ByteOrder: binary.BigEndian}}},
+	{"little-endian", func() *messages.Writer {
+		return messages.NewWriter(messages.WriterOption{ByteOrder: binary.LittleEndian})
+	}, []messages.ReaderOption{{ByteOrder: binary.LittleEndian}}},
+	{"little-endian/mutable-reader", func() *messages.Writer {
+		return messages.NewWriter(messages.WriterOption{ByteOrder: binary.LittleEndian})
+	}, []messages.ReaderOption{{ByteOrder: binary.LittleEndian, Mutable: true}}},
+}
+
 func build(tier string) []*venum.Check {
 	U := universe(tier)
 	var checks []*venum.Check
@@ -215,23 +237,52 @@ func build(tier string) []*venum.Check {
 			if snap(x.v) != sx {
 				c.Fail("operands-unchanged", []string{x.String()}, "incrementing a Clone modified the original: %s -> %s", sx, snap(x.v))
 			}
-			// wire round trip
-			w := messages.NewWriter()
-			if err := cluster.WriteVersionVector(w, x.v); err != nil {
-				c.Fail("wire-roundtrip", []string{x.String()}, "Write(%s): %v", x, err)
-				continue
-			}
-			r := messages.NewReader(w.Bytes())
-			back, err := cluster.ReadVersionVector(r)
-			if err != nil {
-				c.Fail("wire-roundtrip", []string{x.String()}, "Read(Write(%s)): %v", x, err)
-				continue
-			}
-			if back.Compare(x.v) != cluster.VersionEqual || fmt.Sprint(back.SortedEntries()) != fmt.Sprint(x.v.SortedEntries()) {
-				c.Fail("wire-roundtrip", []string{x.String()}, "Read(Write(%s)) = %v", x, back.SortedEntries())
-			}
-			if r.Pos() != len(w.Bytes()) {
-				c.Fail("wire-consumes-all", []string{x.String()}, "reader consumed %d of %d bytes", r.Pos(), len(w.Bytes()))
+			// wire round trip, under either byte order and through a fresh, a pooled and a caller-supplied buffer; the
+			// bytes the vector was decoded from are overwritten afterwards (a receive buffer is reused for the next frame)
+			for _, route := range wireRoutes {
+				in := []string{x.String(), route.name}
+				w := route.writer()
+				if err := cluster.WriteVersionVector(w, x.v); err != nil {
+					c.Fail("wire-roundtrip", in, "Write(%s) [%s]: %v", x, route.name, err)
+					continue
+				}
+				wire := append([]byte(nil), w.Bytes()...)
+				frame := append([]byte(nil), wire...)
+				r := messages.NewReader(frame, route.ropts...)
+				back, err := cluster.ReadVersionVector(r)
+				if err != nil {
+					c.Fail("wire-roundtrip", in, "Read(Write(%s)) [%s]: %v", x, route.name, err)
+					continue
+				}
+				want := fmt.Sprint(x.v.SortedEntries())
+				if back.Compare(x.v) != cluster.VersionEqual || fmt.Sprint(back.SortedEntries()) != want {
+					c.Fail("wire-roundtrip", in, "Read(Write(%s)) [%s] = %v", x, route.name, back.SortedEntries())
+				}
+				if r.Pos() != len(wire) {
+					c.Fail("wire-consumes-all", in, "[%s] reader consumed %d of %d bytes", route.name, r.Pos(), len(wire))
+				}
+				derived := back.Clone().Merge(x.v)
+				for i := range frame {
+					frame[i] = 0xAA
+				}
+				w.Reset()
+				_ = cluster.WriteVersionVector(w, U[len(U)-1].v)
+				if fmt.Sprint(back.SortedEntries()) != want || back.Compare(x.v) != cluster.VersionEqual {
+					c.Fail("wire-roundtrip", in, "[%s] the decoded vector changed when the bytes it was read from were reused: %v, written %s", route.name, back.SortedEntries(), x)
+				}
+				for _, id := range ids {
+					if back.Get(id) != x.v.Get(id) {
+						c.Fail("wire-roundtrip", in, "[%s] after the receive buffer was reused Get(%s) = %d, written %s", route.name, id, back.Get(id), x)
+					}
+				}
+				if derived.Compare(x.v) != cluster.VersionEqual {
+					c.Fail("wire-roundtrip", in, "[%s] Merge(Clone(decoded), original) is %s the original after the receive buffer was reused", route.name, orderName(derived.Compare(x.v)))
+				}
+				// re-encoding the decoded vector gives the same bytes
+				w2 := route.writer()
+				if err := cluster.WriteVersionVector(w2, back); err != nil || string(w2.Bytes()) != string(wire) {
+					c.Fail("wire-roundtrip", in, "[%s] re-encoding the decoded vector gives different bytes (err=%v)", route.name, err)
+				}
 			}
 			if snap(x.v) != sx {
 				c.Fail("operands-unchanged", []string{x.String()}, "serialising modified the vector: %s -> %s", sx, snap(x.v))
